@@ -14,6 +14,9 @@ from tv import lang
 PLAIN_ATOMS = ['.*', '.+', '[A-Z]+', '[0-9]{4}', '(?:UBER|LYFT)', '^', '$', '(?!.*EATS)', 'S?', '[ *-]', '.']
 ESCAPE_ATOMS = [r'\d+', r'\s+', r'\s*', r'\w+', r'\b', r'\.', r'\*', r'\S', r'#\d{4}', r'\bUBER\b', r'(\w)\1', r'\\', r'\d{5}', r'\$']
 QUOTE_ATOMS = ['"', "'", '"AMZN"']
+# plain text that merely resembles the rule language in another letter case (still regexes in a CSV rule file)
+LOOKALIKE_ATOMS = ['BED BATH AND BEYOND', 'CRATE AND BARREL', 'PARK OR RIDE', 'Stop And Shop', 'FIELD.TRIP', 'AMOUNT=DUE', 'Source = BANK', 'FUZZY(', 'H AND M', 'DESCRIPTION!']
+LOOKALIKE_ATOMS = [a for a in LOOKALIKE_ATOMS if '(' not in a]
 
 
 def looks_like_expression(pattern: str) -> bool:
@@ -30,6 +33,8 @@ def regex_pat(draw, escapes=True, quotes=False):
         alts.append(st.sampled_from(ESCAPE_ATOMS))
     if quotes:
         alts.append(st.sampled_from(QUOTE_ATOMS))
+    if draw(st.integers(0, 5)) == 0:
+        return draw(st.sampled_from(LOOKALIKE_ATOMS))
     parts = draw(st.lists(st.one_of(alts), min_size=1, max_size=3))
     sep = draw(st.sampled_from(['', '', ' ', r'\s*' if escapes else ' ?', '.*']))
     p = sep.join(parts)
